@@ -67,9 +67,7 @@ func hooksMissing(s *gtfs.Static, acc map[string]abs.Seq[int]) (missing []string
 			missing = append(missing, f)
 		}
 	}
-	if len(s.Services) > 0 && len(acc["calendar.txt"])+len(acc["calendar_dates.txt"]) == 0 {
-		missing = append(missing, "calendar.txt")
-	}
+	// (services are not counted: a service is not the image of one row, and a parser may create one in other ways)
 	return missing
 }
 
